@@ -296,6 +296,7 @@ type MemConn struct {
 	lateFailErr error
 	failN       int
 	failSkip    int
+	lateZero    bool
 	failErr     error
 }
 
@@ -359,7 +360,7 @@ func (c *MemConn) WriteTo(p []byte, addr net.Addr) (int, error) {
 	if ferr := c.takeFail(); ferr != nil {
 		return 0, ferr
 	}
-	if st := c.stall.Load(); st != nil {
+	if st := c.stall.Load(); st != nil && !st.EmitFirst {
 		if err := st.wait(c); err != nil {
 			return 0, err
 		}
@@ -374,7 +375,18 @@ func (c *MemConn) WriteTo(p []byte, addr net.Addr) (int, error) {
 	} else if h := c.w.OnEmit; h != nil {
 		h(d)
 	}
+	if st := c.stall.Load(); st != nil && st.EmitFirst {
+		if err := st.wait(c); err != nil {
+			return 0, err
+		}
+	}
 	if lerr := c.takeLateFail(); lerr != nil {
+		c.mu.Lock()
+		zero := c.lateZero
+		c.mu.Unlock()
+		if zero {
+			return 0, lerr
+		}
 		return len(p), lerr
 	}
 	return len(p), nil
